@@ -121,6 +121,8 @@ shapes_event = [
     ("capture", 'z = tick(0, 1u8), "msg {cap}"', 'let cap = 3;', [("message", "debug", "msg 3"), ("z", "u64", "1")], 1, True),
     ("three_msg", 'a = tick(0, 1u8), b = tick(1, "s"), "m {}", tick(2, 1)', "", [("message", "debug", "m 1"), ("a", "u64", "1"), ("b", "str", "s")], 3, True),
     ("trailing_comma", 'a = tick(0, 1u8), b = tick(1, 2i8),', "", [("a", "u64", "1"), ("b", "i64", "2")], 2, False),
+    ("litsigil", '"lit d" = %tick(0, DV("d")), "lit g" = ?tick(1, DV("x")), "last d" = %tick(2, DV("e"))', "", [("lit d", "debug", "d"), ("lit g", "debug", "DBG<x>"), ("last d", "debug", "e")], 3, False),
+    ("litsigil2", '"lit g" = ?tick(0, DV("x")), mid = tick(1, 2u8), "lit d" = %tick(2, DV("d")), "last g" = ?tick(3, DV("y"))', "", [("lit g", "debug", "DBG<x>"), ("mid", "u64", "2"), ("lit d", "debug", "d"), ("last g", "debug", "DBG<y>")], 4, False),
 ]
 shapes_span = [s for s in shapes_event if not s[5]] + [("nofields", "", "", [], 0, False)]
 
@@ -157,6 +159,52 @@ for mname, mpath, takes_level, lvl in sp_macros:
 # Span::record of declared-empty and undeclared fields
 out.append('fn f_record_later(_: usize) { let s = tracing::span!(Level::INFO, "rec", a = tracing::field::Empty, b = tick(0, 1u8)); s.record("a", tick(1, 5i32)); s.record("nope", tick(2, 6i32)); }')
 cases.append('Case { name: "f_record_later", kind: "span", level: 3, run: f_record_later, arg: 0, exp: &[Exp { name: "b", method: "u64", value: "1" }, Exp { name: "a", method: "i64", value: "5" }], ticks: &[1, 1, 1], undeclared: true }')
+
+# every arm of the field grammar: name form x sigil, in final and non-final position
+arm_names = [("k", "k"), ("a.b", "a.b"), ('"lit n"', "lit n")]
+arm_sigils = [("", "7u8", "u64", "7"), ("%", 'DV("d")', "debug", "d"), ("?", 'DV("g")', "debug", "DBG<g>")]
+combos = [(nt, nn, sg, val, meth, rep) for nt, nn in arm_names for sg, val, meth, rep in arm_sigils]
+def arm_field(i, c, suffix=""):
+    nt, nn, sg, val, meth, rep = c
+    name_tok = nt if not nt.startswith('"') else nt[:-1] + suffix + '"'
+    if not nt.startswith('"'):
+        name_tok = nt + suffix
+    return f"{name_tok} = {sg}tick({i}, {val})", ((nn + suffix), meth, rep)
+arm_shapes = []
+toks, exp = [], []
+for i, c in enumerate(combos):
+    t, e = arm_field(i, c, str(i))
+    toks.append(t); exp.append(e)
+arm_shapes.append(("arms_all", ", ".join(toks), exp, len(combos)))
+for j, c in enumerate(combos):
+    t0, e0 = "z = tick(0, 1u8)", ("z", "u64", "1")
+    t1, e1 = arm_field(1, c, "")
+    arm_shapes.append((f"arms_last{j}", f"{t0}, {t1}", [e0, e1], 2))
+    arm_shapes.append((f"arms_first{j}", f"{t1.replace('tick(1,', 'tick(0,')}, y = tick(1, 2u8)", [e1, ("y", "u64", "2")], 2))
+for sid, toks, exp, nt in arm_shapes:
+    for mname, call, kind in [("event", "tracing::event!(Level::INFO, {})", "event"), ("info", "tracing::info!({})", "event"), ("span", 'let _s = tracing::span!(Level::INFO, "spn", {});', "span"), ("info_span", 'let _s = tracing::info_span!("spn", {});', "span")]:
+        fn = f"f_{mname}_{sid}"
+        if fn in SKIP:
+            continue
+        body = call.format(toks)
+        if not body.endswith(";"):
+            body += ";"
+        out.append(f"fn {fn}(_: usize) {{ {body} }}")
+        ticks = "&[" + ", ".join("1" for _ in range(nt)) + "]"
+        cases.append(f'Case {{ name: {rs(fn)}, kind: "{kind}", level: 3, run: {fn}, arg: 0, exp: {exp_list(exp)}, ticks: {ticks}, undeclared: false }}')
+
+# wide callsites: more keys than any fixed-width bookkeeping would hold
+def wide(n):
+    return ", ".join(f"f{i} = tick({i}, {i}u8)" for i in range(n))
+def wide_exp(n):
+    return "&[" + ", ".join(f'Exp {{ name: "f{i}", method: "u64", value: "{i}" }}' for i in range(n)) + "]"
+for n in (64, 65, 70):
+    out.append(f"fn f_wide_event_{n}(_: usize) {{ tracing::event!(Level::INFO, {wide(n)}); }}")
+    cases.append(f'Case {{ name: "f_wide_event_{n}", kind: "event", level: 3, run: f_wide_event_{n}, arg: 0, exp: {wide_exp(n)}, ticks: &[{", ".join("1" for _ in range(n))}], undeclared: false }}')
+    out.append(f"fn f_wide_span_{n}(_: usize) {{ let _s = tracing::span!(Level::INFO, \"wide\", {wide(n)}); }}")
+    cases.append(f'Case {{ name: "f_wide_span_{n}", kind: "span", level: 3, run: f_wide_span_{n}, arg: 0, exp: {wide_exp(n)}, ticks: &[{", ".join("1" for _ in range(n))}], undeclared: false }}')
+out.append(f"fn f_wide_event_msg(_: usize) {{ tracing::event!(Level::INFO, {wide(66)}, \"wide {{}}\", tick(66, 1)); }}")
+cases.append(f'Case {{ name: "f_wide_event_msg", kind: "event", level: 3, run: f_wide_event_msg, arg: 0, exp: &[Exp {{ name: "message", method: "debug", value: "wide 1" }}, ' + wide_exp(66)[2:] + f', ticks: &[{", ".join("1" for _ in range(67))}], undeclared: false }}')
 
 # enabled! evaluates nothing and answers like the collector
 for i, (pname, toks) in enumerate([("plain", "Level::INFO"), ("target", 'target: "tg", Level::INFO'), ("kind", 'kind: tracing::metadata::Kind::SPAN, target: "tg", Level::INFO')]):
